@@ -217,6 +217,28 @@ pub fn run(tier: Tier, report: &mut Report, all_docs: &dyn Fn(&str) -> Vec<Doc>)
                 let input = &docs[di].bytes;
                 acc.evaluations += 1;
                 acc.transitions += 1;
+                // the parsers' own convenience constructors (i32 literals, default configuration), once
+                // per document: what they accept must mean what the text says as well
+                if si == 0 && kind != "log" {
+                    for (cname, items, end) in subjects::via_constructors(kind, input) {
+                        if !matches!(end, mc_core::subject::End::Clean) {
+                            continue;
+                        }
+                        acc.evaluations += 1;
+                        acc.transitions += 1;
+                        let got = crate::typed::value_of_items(&items);
+                        let verdict = match lex(kind, input) {
+                            None => Some(("not-well-formed", "the independent reader finds no well-formed document".to_string())),
+                            Some(lexed) => judge(kind, "i32", false, &got, &lexed).map(|(k, w)| (k, w)),
+                        };
+                        if let Some((k, why)) = verdict {
+                            let key = format!("{kind}/accepted-meaning/{k}/constructor");
+                            acc.violation_with(&key, input.len() as u64, || {
+                                (format!("{kind} parser built with {cname} accepts {:?}: {why}; returned {got:?}", show(input)), json!({"property": "C06", "subject": format!("{kind}<i32>/ignore_header=false"), "input_hex": hex(input), "input": show(input), "spec": Spec::oneshot().to_json(), "constructor": cname}))
+                            });
+                        }
+                    }
+                }
                 if let Ok(got) = run_typed(subject, input, &Spec::oneshot()) {
                     let lexed = if kind == "log" {
                         crate::typed::lex_log_assignment(input).map(|lits| Value { header: None, clauses: if lits.is_empty() && got.clauses.is_empty() { vec![] } else { vec![(None, lits)] }, status: got.status.clone() })
